@@ -442,7 +442,7 @@ def run(ctx):
     ctx.proof_phase(MODULE, THEOREMS)
     drv = ctx.driver("Drivers.C11")
     rng = ctx.sub_rng("ops")
-    nseq = ctx.budget(900, 40000)
+    nseq = ctx.budget(450, 40000)
     seqs = []
     if ctx.replay_in:
         seqs = [json.load(open(ctx.replay_in))["replay"]["ops"]]
